@@ -1019,6 +1019,10 @@ func main() {
 		writeIfChanged(filepath.Join(*out, "Catalogue.lean"), sb.String())
 		js, _ := json.MarshalIndent(facts, "", " ")
 		writeIfChanged(filepath.Join(*out, "catalogue.json"), string(js)+"\n")
+		if err := extractLocksets(*repo, *out); err != nil {
+			fmt.Fprintln(os.Stderr, "locksets:", err)
+			os.Exit(1)
+		}
 	} else {
 		js, _ := json.MarshalIndent(facts, "", " ")
 		fmt.Println(string(js))
